@@ -17,7 +17,7 @@ use crate::probe::Probe;
 use crate::statejson::{self, oshape_from_spec, Params, ShapeSpec};
 
 pub const TITLE: &str = "Optimisation keeps parameters in range and the cell in its crystal family";
-pub const RULE: &str = "part initial: every group x {hard polygon 3..12 / convex radial, hard circle / trimer, Lennard-Jones circle / trimer}: the from_group state has a finite defined score (> 0 for hard shapes whose area is well defined), in-range parameters, and (hard) no overlap by the harness's tiling oracle. part chains: an initial or a generated valid in-range state, run through 1..4 successive optimisations with independently generated configurations (1..10 inner loops, kT 0..1, every cooling option, max_step_size from 1e-3 up to 8 (a single move may exceed a parameter's whole range), optional convergence), the state being passed on between stages. After every stage, from the JSON of the returned state and that stage's input: 0.01 <= length <= input length; 0.1 <= ratio <= input ratio; angle in [pi/6, pi/2] for oblique groups and bit-identical otherwise; x,y in [-1/2,1/2]; orientation in [0,2pi]; group label, wallpaper family and cell family unchanged; score() finite and defined. Non-trivial = a chain of >= 2 stages in which a cell parameter changed and some proposal was clamped to a bound; distinct by hash of the case.";
+pub const RULE: &str = "part initial: every group x {hard polygon 3..12 / convex radial, hard circle / trimer, Lennard-Jones circle / trimer}: the from_group state has a finite defined score (> 0 for hard shapes whose area is well defined), in-range parameters, and (hard) no overlap by the harness's tiling oracle. part chains: an initial or a generated valid in-range state, run through 1..4 successive optimisations with independently generated configurations (1..10 inner loops, kT 0..1, every cooling option, max_step_size from 1e-3 up to 8 (a single move may exceed a parameter's whole range), optional convergence), the state being passed on between stages. After every stage, from the JSON of the returned state and that stage's input: 0.01 <= length <= input length; 0.1 <= ratio <= input ratio; angle in [pi/6, pi/2] for oblique groups and bit-identical otherwise; x,y in [-1/2,1/2]; orientation in [0,2pi]; group label, wallpaper family and cell family unchanged; score() finite and defined. Non-trivial = a chain of >= 2 stages in which a cell parameter changed and some proposal was clamped to a bound; distinct by hash of the case. part multi-site: chains of 1..3 optimiser configurations on valid states with 2..4 occupied sites (3 + 3k parameters): after every stage every site's x, y, orientation, the cell parameters (relative to the stage input), the labels and the number of sites are checked and the score must be finite.";
 
 pub fn assumptions() -> Vec<&'static str> {
     vec!["the state is handed from stage to stage through serde_json::Value (bit-exact), which re-derives the bounds from the current values exactly as a fresh generate_basis() does"]
@@ -306,6 +306,119 @@ fn chain_oracle(c: &ChainCase, rec: &Rec, _: &Ctx) -> Result<(), String> {
     Ok(())
 }
 
+// ------------------------------------------------------------------------------------------------
+// multi-site: chains on states with 2..4 occupied sites (3 cell + 3k site parameters)
+
+#[derive(Clone, Debug, Serialize, Deserialize)]
+pub struct MultiChain {
+    pub spec: crate::multisite::MultiSpec,
+    pub lj: bool,
+    pub stages: Vec<OptCfg>,
+}
+
+fn multi_strat(_: &Ctx) -> BoxedStrategy<MultiChain> {
+    let shape = prop_oneof![1 => crate::gen::line_shape_spec(), 2 => crate::gen::mol_shape_spec()];
+    (crate::multisite::multi_strat(shape.boxed(), 0.01, 0.2, 2, 4), any::<bool>(), proptest::collection::vec(cfg_strat(), 1..=3))
+        .prop_map(|(spec, lj, stages)| MultiChain { lj: lj && !matches!(spec.shape, ShapeSpec::Polygon { .. } | ShapeSpec::Radial { .. }), spec, stages })
+        .boxed()
+}
+
+fn multi_ranges(v: &Value, input: &Value, group: usize, what: &str) -> Result<bool, String> {
+    let chk = |name: String, val: f64, lo: f64, hi: f64| -> Result<(), String> {
+        if !(val >= lo && val <= hi) {
+            Err(format!("{}: {} = {} lies outside its range [{}, {}]", what, name, val, lo, hi))
+        } else {
+            Ok(())
+        }
+    };
+    let num = |x: &Value, n: &str| x[n].as_f64().ok_or_else(|| format!("{}: the state's JSON lacks {}", what, n));
+    let (sites, sites0) = (v["occupied_sites"].as_array().ok_or("no sites")?, input["occupied_sites"].as_array().ok_or("no sites")?);
+    if sites.len() != sites0.len() {
+        return Err(format!("{}: the number of occupied sites changed from {} to {}", what, sites0.len(), sites.len()));
+    }
+    for (i, s) in sites.iter().enumerate() {
+        chk(format!("x of site {}", i), num(s, "x")?, -0.5, 0.5)?;
+        chk(format!("y of site {}", i), num(s, "y")?, -0.5, 0.5)?;
+        chk(format!("orientation of site {}", i), num(s, "angle")?, 0., 2. * PI)?;
+    }
+    let (c, c0) = (&v["cell"], &input["cell"]);
+    chk("cell length".to_string(), num(c, "length")?, 0.01, num(c0, "length")?)?;
+    chk("cell side ratio".to_string(), num(c, "ratio")?, 0.1, num(c0, "ratio")?)?;
+    if is_oblique(group) {
+        chk("cell angle".to_string(), num(c, "angle")?, PI / 6., PI / 2.)?;
+    } else if num(c, "angle")?.to_bits() != num(c0, "angle")?.to_bits() {
+        return Err(format!("{}: the cell angle of a rectangular group changed from {} to {}", what, c0["angle"], c["angle"]));
+    }
+    if labels(v) != labels(input) {
+        return Err(format!("{}: labels changed from {:?} to {:?}", what, labels(input), labels(v)));
+    }
+    Ok(c != c0)
+}
+
+fn run_multi<S: State + Serialize + DeserializeOwned>(mut state: S, c: &MultiChain, rec: &Rec) -> Result<Option<(usize, bool)>, String> {
+    if !state.score().map(|s| s.is_finite()).unwrap_or(false) {
+        return Ok(None);
+    }
+    let mut input = serde_json::to_value(&state).map_err(|e| e.to_string())?;
+    let mut moved = false;
+    let mut done = 0;
+    for (k, cfg) in c.stages.iter().enumerate() {
+        let cfg2 = cfg.clone();
+        let st = state.clone();
+        let res = std::panic::catch_unwind(std::panic::AssertUnwindSafe(move || {
+            let out = cfg2.build().optimise_state(st);
+            (serde_json::to_value(&out).ok(), out.score())
+        }));
+        rec.eval(cfg.proposals() + 1);
+        let (v, score) = match res {
+            Ok((Some(v), s)) => (v, s),
+            Ok((None, _)) => return Err(format!("stage {}: the returned state does not serialise", k + 1)),
+            Err(_) => {
+                rec.class("stage-panicked-not-judged-here");
+                return Ok(Some((done, moved)));
+            }
+        };
+        let what = format!("stage {} of {} on a state with {} occupied sites ({}, config {:?})", k + 1, c.stages.len(), c.spec.sites.len(), c.spec.describe(), cfg);
+        if multi_ranges(&v, &input, c.spec.group, &what)? {
+            moved = true;
+        }
+        match score {
+            Some(s) if s.is_finite() => {}
+            other => return Err(format!("{}: the returned state's score is {:?}, not finite and defined", what, other)),
+        }
+        state = serde_json::from_value(v.clone()).map_err(|e| format!("{}: output does not deserialise: {}", what, e))?;
+        input = v;
+        done += 1;
+    }
+    Ok(Some((done, moved)))
+}
+
+fn multi_oracle(c: &MultiChain, rec: &Rec, _: &Ctx) -> Result<(), String> {
+    if !well_defined(&c.spec.shape) {
+        rec.class("skipped-shape-without-area");
+        return Ok(());
+    }
+    let r = match (&c.spec.shape, c.lj) {
+        (ShapeSpec::Polygon { .. }, _) | (ShapeSpec::Radial { .. }, _) => run_multi(crate::multisite::packed_line(&c.spec)?, c, rec)?,
+        (_, false) => run_multi(crate::multisite::packed_mol(&c.spec)?, c, rec)?,
+        (_, true) => run_multi(crate::multisite::potential(&c.spec)?, c, rec)?,
+    };
+    match r {
+        None => rec.class("skipped-start-without-finite-score"),
+        Some((done, moved)) => {
+            let class = format!("{}/{}sites/stages{}{}", if c.lj { "lj" } else { "hard" }, c.spec.sites.len(), done, if moved { "/cell-moved" } else { "" });
+            rec.class(&class);
+            if moved && done >= 2 {
+                rec.nontrivial(hash_json(&serde_json::to_value(c).unwrap()));
+            }
+            if rec.wants_sample(&class) {
+                rec.sample(&class, || serde_json::to_value(c).unwrap());
+            }
+        }
+    }
+    Ok(())
+}
+
 pub fn parts() -> Vec<PartDef> {
-    vec![part("initial", 40_000, 1_000_000, init_strat, init_oracle), part("chains", 2_500, 75_000, chain_strat, chain_oracle)]
+    vec![part("initial", 40_000, 1_000_000, init_strat, init_oracle), part("chains", 2_500, 75_000, chain_strat, chain_oracle), part("multi-site", 400, 12_000, multi_strat, multi_oracle)]
 }
